@@ -129,6 +129,7 @@ Definition verdicts (cs : list l2case) : list (string * string) :=
   map (fun c => let v := verdict c in
                 (lc_id c, v ++ "|" ++ join "," (families c ++
                                 (if benign_run (lc_input c) (lc_cfg c) (lc_args c) then [] else ["outside_benign_guard"]) ++
+                                (if names_run_ok (lc_input c) (lc_cfg c) (lc_args c) then [] else ["outside_names_guard"]) ++
                                 (if regen_stable c false then [] else ["regen_unstable_last"]) ++
                                 (if regen_stable c true then [] else ["regen_unstable_first"]) ++
                                 (if regen_stable_at c (lc_mid c) then [] else ["regen_unstable_mid"]))%list ++
